@@ -122,6 +122,9 @@ class ClassInfo:
         return '<class %s>' % self.key
 
 
+_YAML_SOURCE_CACHE: Dict[str, str] = {}
+
+
 class ModuleInfo:
     def __init__(self, name: str, text: str, path: str, tree: Optional[ast.Module] = None, log: Optional[List[str]] = None,
                  ext: Optional[Dict[str, ast.AST]] = None):
@@ -145,6 +148,15 @@ class ModuleInfo:
                 except Exception as e:                  # pragma: no cover
                     self.decomposition_log.append('%s: canonical decomposition skipped (%r)' % (name, e))
                     self.tree = ast.parse(text)
+            try:
+                # step L: hand-written copies of small PyYAML entry points (after inlining: the copy may live in a helper)
+                from .libfold import fold_library_idioms
+                ys_ = _YAML_SOURCE_CACHE.get('yaml')
+                if ys_ is None:
+                    ys_ = _YAML_SOURCE_CACHE.setdefault('yaml', read_yaml_sources().get('yaml', ''))
+                self.decomposition_log += fold_library_idioms(self.tree, ys_)
+            except Exception as e:                      # pragma: no cover
+                self.decomposition_log.append('%s: step L skipped (%r)' % (name, e))
             try:
                 self.tree = normalize(self.tree, ext)
             except Exception as e:                      # pragma: no cover
